@@ -94,6 +94,13 @@ Perturbs == { <<"lo", 1>>, <<"lo", -1>>, <<"hi", 1>>, <<"hi", -1>>, <<"add", 1>>
 (* ---- faults *)
 InexactFaults == {"qbelow_lower", "qbelow_upper", "qabove_lower", "qabove_upper", "qbelow_both", "qmixed_both"}
 ComplexRealFaults == {"creal_lower", "creal_upper"}
+\* what the author did to the constants: removed defaults, overrode one, defined a new one
+UcKinds == {"none", "rm_i", "rm_j", "rm_pi", "rm_e", "rm_ij", "ov_pi", "new_tau"}
+RemovedOf(uc) == CASE uc = "rm_i" -> {"i"} [] uc = "rm_j" -> {"j"} [] uc = "rm_pi" -> {"pi"} [] uc = "rm_e" -> {"e"}
+                   [] uc = "rm_ij" -> {"i", "j"} [] OTHER -> {}
+UserConstsOf(uc) == CASE uc = "ov_pi" -> {"pi"} [] uc = "new_tau" -> {"tau"} [] OTHER -> {}
+StudentNameFaults == {"var_pi", "var_i", "var_j", "var_e", "var_tau"}
+AuthorNameFaults == {"var_i", "var_j", "var_pi"}
 AuthorFaults == {"none", "half_lower", "cplx_upper", "var_i", "var_x", "var_c", "blank_lower", "blank_summand", "unknown_var", "pole"}
 StudentFaults == {"none", "blank_lower", "blank_upper", "blank_summand", "blank_var", "var_pi", "var_i", "var_sin", "var_x",
                   "half_lower", "half_upper", "cplx_lower", "cplx_upper", "xdep_upper", "uses_c", "plusc_lower", "pole", "unknown_var"}
@@ -107,6 +114,9 @@ ApplyFault(s, f, k, xs) ==
     [] f = "blank_var" -> [s EXCEPT !.var = ""]
     [] f = "var_pi" -> WithVar(s, "pi")
     [] f = "var_i" -> WithVar(s, "i")
+    [] f = "var_j" -> WithVar(s, "j")
+    [] f = "var_e" -> WithVar(s, "e")
+    [] f = "var_tau" -> WithVar(s, "tau")
     [] f = "var_sin" -> WithVar(s, "sin")
     [] f = "var_x" -> WithVar(s, "x")
     [] f = "var_c" -> WithVar(s, "c")
@@ -179,7 +189,8 @@ Space ==
     [] Part = "err" ->
          [sid |-> (IF L > 4 THEN {"xlin", "ivar", "vec"} ELSE {"xlin", "ivar"}), eo |-> {0, 1}, tr |-> {<<"same", 0>>, <<"shift", 1>>},
           l |-> (IF L > 4 THEN {LInt(-1), LInt(4)} ELSE {LInt(-1)}), u |-> {LInt(3)}, P |-> SUBSET Fields, ord |-> {"asc"},
-          tol |-> {"default"}, cut |-> {Cut}, fa |-> AuthorFaults, fs |-> StudentFaults, fk |-> (IF L > 4 THEN {2, 5} ELSE {2}),
+          tol |-> {"default"}, cut |-> {Cut}, fa |-> AuthorFaults \cup AuthorNameFaults, fs |-> StudentFaults \cup StudentNameFaults,
+          fk |-> (IF L > 4 THEN {2, 5} ELSE {2}),
           xs |-> {"frac", "int"}]
     [] Part = "rnd" ->
          [sid |-> (IF L > 3 THEN {"quad", "altn", "xlin"} ELSE {"quad", "xlin"}), eo |-> 0..2,
@@ -214,13 +225,20 @@ Sensible(x) ==
   /\ x.dbg => x.fs \in ComplexRealFaults \/ x.fa \in ComplexRealFaults
   /\ x.fs \in ComplexRealFaults \/ x.fa \in ComplexRealFaults => x.eo = 0
   /\ x.fs \in {"var_pi", "var_i", "var_sin", "var_x"} \/ x.fa \in {"var_i", "var_x", "var_c"} => x.tr[1] \in {"same", "shift"}
+  \* constants removed / overridden / added by the author: only together with a summation variable named after a constant
+  /\ x.uc # "none" => /\ ((x.fs \in StudentNameFaults /\ x.fa = "none") \/ (x.fa \in AuthorNameFaults /\ x.fs = "none"))
+                       /\ x.tr[1] = "same" /\ x.eo = 0 /\ x.sid # "vec"
+                       /\ x.P \in {Fields, {"summand"}, {"summand", "summation_variable"}}
+  /\ x.fs \in {"var_j", "var_e", "var_tau"} \/ x.fa \in {"var_j", "var_pi"} => x.uc # "none"
   /\ x.fs = "unknown_var" \/ x.fa = "unknown_var" => x.tr[1] \in {"same", "shift"}
 
 CfgOf(x) == [evenOdd |-> x.eo, cut |-> x.cut, cutFact |-> CutFact, xs |-> XsOf(x.xs), cval |-> CVal, vars |-> {"x"},
-             ivars |-> {"c"}, tol |-> Tols[x.tol], userfuncs |-> {}, forbidden |-> {}, required |-> {}, listing |-> "black", debug |-> x.dbg]
+             ivars |-> {"c"}, tol |-> Tols[x.tol], userfuncs |-> {}, forbidden |-> {}, required |-> {}, listing |-> "black", debug |-> x.dbg,
+             removed |-> RemovedOf(x.uc), userconsts |-> UserConstsOf(x.uc)]
 CleanAuthor(x) == [lower |-> x.l, upper |-> x.u, body |-> Catalogue[x.sid], var |-> "n"]
 AuthorOf(x) == ApplyFault(CleanAuthor(x), x.fa, x.fk, XsOf(x.xs))
-StudentOf(x) == LET a == CleanAuthor(x)
+\* (when the author's own variable is named after a constant, the submission is written in that variable too)
+StudentOf(x) == LET a == IF x.uc # "none" /\ x.fa \in AuthorNameFaults THEN ApplyFault(CleanAuthor(x), x.fa, x.fk, XsOf(x.xs)) ELSE CleanAuthor(x)
                     a1 == IF x.fs = "uses_c" THEN a ELSE [a EXCEPT !.body = InlineC(a.body)]
                 IN ApplyFault(Transform(x.tr, a1, IF x.sid = "fact" THEN CutFact ELSE x.cut), x.fs, x.fk, XsOf(x.xs))
 
@@ -230,7 +248,7 @@ Seeds == {s \in {[kind |-> "seed", sid |-> s, eo |-> e, tr |-> t, fa |-> f] : s 
 ASSUME {TrSeq[i] : i \in 1..Len(TrSeq)} = AllTr /\ Len(TrSeq) = Cardinality(AllTr)
 CasesFor(s) == {x \in [kind : {Part}, sid : {s.sid}, eo : {s.eo}, tr : {s.tr}, fa : {s.fa}, l : Space.l, u : Space.u, P : Space.P,
                        ord : Space.ord, tol : Space.tol, cut : Space.cut, fs : Space.fs, fk : Space.fk, xs : Space.xs,
-                       dbg : (IF Part = "rnd" THEN BOOLEAN ELSE {FALSE})] : Sensible(x)}
+                       dbg : (IF Part = "rnd" THEN BOOLEAN ELSE {FALSE}), uc : (IF Part = "err" THEN UcKinds ELSE {"none"})] : Sensible(x)}
 Init == c \in Seeds /\ io = "seed" /\ out = {}
 Next == /\ c.kind = "seed"
         /\ c' \in CasesFor(c)
@@ -275,9 +293,17 @@ FieldOfFault(f) == CASE f \in {"blank_lower", "half_lower", "cplx_lower", "plusc
                      [] f = "blank_var" -> {"summation_variable"}
                      [] f \in {"var_pi", "var_i", "var_sin", "var_x"} -> {"summation_variable"}
                      [] OTHER -> {}
-LawStudentFault == IsCase /\ c.fa = "none" /\ FieldOfFault(c.fs) # {} /\ FieldOfFault(c.fs) \subseteq c.P => out = {"student_err"}
-LawAuthorFault == IsCase /\ c.fs = "none" /\ Full /\ c.fa \in {"half_lower", "cplx_upper", "var_i", "var_x", "var_c", "blank_lower", "blank_summand", "unknown_var"}
+LawStudentFault == IsCase /\ c.fa = "none" /\ c.uc = "none" /\ FieldOfFault(c.fs) # {} /\ FieldOfFault(c.fs) \subseteq c.P => out = {"student_err"}
+LawAuthorFault == IsCase /\ c.fs = "none" /\ Full /\ c.uc = "none" /\ c.fa \in {"half_lower", "cplx_upper", "var_i", "var_x", "var_c", "blank_lower", "blank_summand", "unknown_var"}
                      => out = {"config_err"}
+\* a default constant the author removed is a free name for the summation variable (the student's and the author's own);
+\* a constant in force -- default, overridden or new -- is taken
+NameOfFault(f) == CASE f = "var_pi" -> "pi" [] f = "var_i" -> "i" [] f = "var_j" -> "j" [] f = "var_e" -> "e" [] f = "var_tau" -> "tau"
+LawConstantNames == IsCase /\ Part = "err" /\ c.uc # "none" =>
+  /\ c.fa = "none" /\ {"summand", "summation_variable"} \subseteq c.P
+       => out = (IF NameOfFault(c.fs) \in ConstantsInForce(io.cfg) THEN {"student_err"} ELSE {"correct"})
+  /\ c.fs = "none" /\ NameOfFault(c.fa) \notin ConstantsInForce(io.cfg) /\ c.sid # "ivar" => out = {"correct"}
+  /\ c.fs = "none" /\ NameOfFault(c.fa) \in ConstantsInForce(io.cfg) => out = {"config_err", "student_err"}
 \* an inexactly written integer limit is either refused or taken for exactly that integer -- nothing else
 LawInexactSubmission == IsCase /\ Part = "rnd" /\ c.fa = "none"
                            => out = {"student_err"} \cup Allowed(io.aut, Exactly(io.stu), c.P, io.cfg)
